@@ -120,9 +120,11 @@ struct Runner
     static void inject(const Grammar& g)
     {
         static const auto patterns = tpl::patterns_of(TT::slots());
-        access::inject(parser(), g, tpl::T36_PARK, patterns, [](bool h, int pr) { return TT::dsl_prec(h, pr); });
+        access::inject(parser(), g, tpl::T36_PARK, patterns, [](bool h, int pr) { return TT::dsl_prec(h, pr); }, [](int t, int pr, int as) { return TT::dsl_term(t, pr, as); });
     }
     // stream: 0 none, 1 std::ostringstream, 2 user stream ; buffer: 0 string_view over an exact heap copy, 1 string_buffer, 2 checked user buffer
+    // when set, calls that report to a std::ostringstream all use this one object (its text is cleared between calls, nothing else is touched)
+    static std::ostringstream*& shared_stream() { static thread_local std::ostringstream* s = nullptr; return s; }
     static Obs observe(const gg::Input& in, bool verbose, int stream, int buffer)
     {
         Obs o; tpl::g_log = &o.log;
@@ -162,6 +164,7 @@ struct Runner
                 ctpg::buffers::string_view_buffer b(sv); base = sv.data(); take(p.parse(b));
             }
             else if (stream == 0) { ctpg::utils::no_stream ns; with_buffer(ns); }
+            else if (stream == 1 && shared_stream()) { std::ostringstream& os = *shared_stream(); os.str(std::string()); with_buffer(os); o.err = os.str(); }   // the caller's long-lived stream (like std::cerr)
             else if (stream == 1) { std::ostringstream os; with_buffer(os); o.err = os.str(); }
             else { UserStream us; with_buffer(us); o.err = us.os.str(); }
         }
@@ -173,6 +176,7 @@ struct Runner
     }
     static std::string diag()
     {
+        if (shared_stream()) { std::ostringstream& os = *shared_stream(); os.str(std::string()); parser().write_diag_str(os); return os.str(); }
         std::ostringstream os; parser().write_diag_str(os); return os.str();
     }
     static ctpg_verif::TableDump dump() { return access::dump(parser()); }
@@ -245,6 +249,7 @@ static void labels_for(const Grammar& g, const Prepared& pr, Stats& st, const GC
     if (strategy.find("seed:") == 0) st.label("strategy:seed(any)");
     st.label(c.tmpl == 0 ? "template:T36" : c.tmpl == 1 ? "template:T20" : "template:TK");
     { size_t mx = 0; for (auto& r : g.rules) mx = std::max(mx, r.rhs.size()); if (mx >= 5) st.label("rule-arity>=5"); }
+    { bool far = false, deepi = false; for (auto& in : c.inputs) { if (in.text.size() > 65536) far = true; else if (in.text.size() > 1000 && in.text.size() < 65000) deepi = true; } if (far) st.label("input-with-term-beyond-64KiB"); if (deepi) st.label("input-longer-than-1000-terms"); }
     if (pr.an.left_rec) st.label("left-rec");
     if (pr.an.right_rec) st.label("right-rec");
     if (pr.an.mutual_rec) st.label("mutual-left-rec");
@@ -285,6 +290,18 @@ static GCase gen_case(Choice& ch, gg::Flavor fl, size_t n_random, bool bad_chars
     }
     if (options)
         for (auto& in : c.inputs) { if (rng.chance(1, 6)) in.skip_nl = false; if (rng.chance(1, 10)) in.skip_ws = false; }
+    if (ch.chance(1, 12) && !c.inputs.empty())
+    {
+        // a far input: blanks push a token of an existing input beyond byte offset 65535 (16-bit offsets, lengths and columns wrap there)
+        gg::Input in = c.inputs[rng.below(uint32_t(c.inputs.size()))];
+        in.skip_ws = true;
+        size_t pos = 0, want = rng.below(3);   // in front of the first, second or third token
+        for (size_t i = 0, seen = 0; i < in.text.size() && seen < want; ++i) { if ((unsigned char)in.text[i] > 32) ++seen; pos = i + 1; }
+        std::string pad(65500 + rng.below(80), rng.chance(1, 3) ? '\t' : ' ');
+        if (in.skip_nl && rng.chance(1, 2)) pad[rng.below(uint32_t(pad.size()))] = '\n';
+        in.text.insert(pos, pad);
+        c.inputs.push_back(in);
+    }
     if (deep && ch.chance(1, 4))
     {
         // one or two very deep sentences: the parse stacks grow past their initial reservation of 1024 entries
